@@ -29,7 +29,7 @@ HERE = os.path.dirname(os.path.abspath(__file__))
 DRIVER = os.path.join(os.path.dirname(HERE), "adapters", "c15_driver.py")
 MIB = 1024 * 1024
 TIMEOUT_MS = 600000      # per connection; only ever reached by a connection that hangs
-IDLE_MS = 60000          # ... or rather this: no event at all on the connection for a minute
+IDLE_MS = 40000          # ... or rather this: no event at all on the connection for 40 s
 
 
 def py():
@@ -89,13 +89,15 @@ def gen_ops(rng, total):
     return ops
 
 
-def gen_scenario(rng, force=None, kind=None, closer=None):
+def gen_scenario(rng, force=None, kind=None, closer=None, sizes=None):
     kind = kind or rng.choice(["lose", "lose", "half", "half", "abort"])
     closer = closer or rng.choice([1, 2])
     other = 3 - closer
     classes = ["zero", "small", "medium", "medium", "large", "large"]
     ctot = gen_total(rng, rng.choice(classes[1:]))
     otot = gen_total(rng, rng.choice(classes if kind != "lose" else ["zero", "zero", "small", "medium", "large"]))
+    if sizes:
+        ctot, otot = gen_total(rng, sizes[0]), gen_total(rng, sizes[1])
     if force == "huge":
         ctot = gen_total(rng, "huge")
         kind = rng.choice(["lose", "half"])
@@ -126,10 +128,12 @@ def plan(ctx):
     jobs = []
     for reactor in REACTORS:
         scs = [gen_scenario(ctx.rng, force="huge" if k == 0 or (k % 25 == 0) else None) for k in range(per)]
-        # fixed corner scenarios on every reactor: every kind x closing side, with half-closeable peers
-        for kind in ("lose", "half", "abort"):
+        # on every reactor: every close kind x closing side, with the traffic shape that close kind is made for
+        # (lose / abort: the closer has sent a lot; half-close: the peer still sends a lot after the closer has finished)
+        for kind, sizes in (("lose", ("large", "small")), ("half", ("small", "large")), ("half", ("medium", "medium")), ("abort", ("large", "small"))):
             for closer in (1, 2):
-                scs.append(gen_scenario(ctx.rng, force="hc" if kind == "half" else None, kind=kind, closer=closer))
+                scs.append(gen_scenario(ctx.rng, force="hc" if kind == "half" and ctx.rng.random() < 0.5 else None,
+                                        kind=kind, closer=closer, sizes=sizes))
         chunk = 25
         for i in range(0, len(scs), chunk):
             jobs.append(dict(reactor=reactor, scenarios=scs[i:i + chunk], timeout_ms=TIMEOUT_MS, idle_ms=IDLE_MS))
@@ -174,7 +178,7 @@ def run_all(ctx, jobs):
     # a genuine hang repeats (and is then judged by TLC: connectionLost missing), a starved machine does not
     retried = 0
     for k, t in enumerate(traces):
-        if t["timed_out"]:
+        if t["timed_out"] and retried < 3:      # (many hanging connections are not a starved machine)
             retried += 1
             t2 = run_job(dict(reactor=t["cfg"]["reactor"], scenarios=[t["scenario"]], timeout_ms=TIMEOUT_MS, idle_ms=IDLE_MS), src)[0]
             t2["first_attempt_timed_out"] = True
@@ -192,8 +196,10 @@ def classify(t, reached):
     """Name of what the rejected event is -- for the fingerprint / message only (the verdict is TLC's)."""
     ev = t["ev"]
     if reached >= len(ev):
-        return "no-end:connectionLost-missing" if t.get("timed_out") else "complete"
+        return "complete"
     e = ev[reached]
+    if e["e"] == "gaveup":
+        return "connection-hangs:connectionLost-missing"
     prev = ev[:reached]
     if e["e"] == "r":
         got = sum(x["len"] for x in prev if x["e"] == "r" and x["s"] == e["s"])
@@ -226,8 +232,10 @@ def mutate(t, rng):
     ev = t["ev"]
     rs = [k for k, e in enumerate(ev) if e["e"] == "r"]
     ls = [k for k, e in enumerate(ev) if e["e"] == "lost"]
-    kind = rng.randrange(7)
-    if kind == 0 and rs:
+    kind = rng.randrange(8)
+    if kind == 7:
+        ev[-1] = {"e": "gaveup"}                                     # the connection never came to its end
+    elif kind == 0 and rs:
         ev[rng.choice(rs)]["off"] += rng.choice([1, 4])             # wrong bytes / shifted stream
     elif kind == 1:
         inner = [k for k in rs if any(j > k and ev[j]["s"] == ev[k]["s"] for j in rs)]
